@@ -68,7 +68,7 @@ def c01(tier):
                      "TLC, CommunityModules Json, tools/aut2tla.py CBOR reader"])
 
 
-def mc_replay(c, model, cfg, label, workers=8, coverage=False, timeout=7200):
+def mc_replay(c, model, cfg, label, workers=8, coverage=False, timeout=7200, plain=False):
     """Run one emitting TLC model and push its cases through the real code."""
     r = run_tlc(model, cfg=cfg, name=os.path.basename(cfg), workers=workers, coverage=coverage, timeout=timeout)
     c.add_tlc(r, label)
@@ -76,6 +76,10 @@ def mc_replay(c, model, cfg, label, workers=8, coverage=False, timeout=7200):
     if not r.error and r.cases:
         rr = run_replay(r.cases_path, name=os.path.basename(cfg))
         c.add_replay(rr, label, r.cases_path)
+        if plain:
+            # the same cases on the library built as users build it (no debug assertions, no overflow checks)
+            rr2 = run_replay(r.cases_path, name=os.path.basename(cfg) + ".plain", plain=True)
+            c.add_replay(rr2, label + " - same cases, build without debug assertions and overflow checks", r.cases_path)
     return r
 
 
@@ -96,7 +100,7 @@ def c02(tier):
     c = new_check("C02", tier)
     c.add_tlc(run_tlc("mc/MC_Unit", name="MC_Unit", coverage=False), "unit tests of the specification's operators against the examples printed in the RFCs (ASSUMEs)")
     for model, cfg in cfgs("mc/MC_Parts", tier, ["", "iri"]):
-        mc_replay(c, model, cfg, "every valid reference within the bound, with its RFC decomposition")
+        mc_replay(c, model, cfg, "every valid reference within the bound, with its RFC decomposition", plain=True)
     for model, cfg in cfgs("mc/MC_Compose", tier, [""]):
         mc_replay(c, model, cfg, "long structured references composed from component vocabularies (section 3 side conditions)")
     drive_parse_and_validate(c, tier, "random long multi-byte references, and a length sweep (each component in turn 0..140, ~256, ~512, "
@@ -110,11 +114,11 @@ def c02(tier):
 def c03(tier):
     c = new_check("C03", tier)
     for model, cfg in cfgs("mc/MC_Auth", tier, ["", "iri"]):
-        mc_replay(c, model, cfg, "every valid authority within the bound, with its section 3.2 decomposition")
+        mc_replay(c, model, cfg, "every valid authority within the bound, with its section 3.2 decomposition", plain=True)
     for model, cfg in cfgs("mc/MC_Parts", tier, [""]):
         mc_replay(c, model, cfg, "authorities embedded in references")
     for model, cfg in cfgs("mc/MC_Compose", tier, [""]):
-        mc_replay(c, model, cfg, "composed references: IP-literals with user info and port, empty parts, multi-byte hosts")
+        mc_replay(c, model, cfg, "composed references: IP-literals with user info and port, empty parts, multi-byte hosts", plain=True)
     drive_parse_and_validate(c, tier, "random authorities drawn from the character classes of section 3.2 (every allowed character "
                                       "next to every delimiter, long user infos, all host kinds), stand-alone and embedded; the three "
                                       "readings of user info / host / port judged by TLC", kinds=("auth",))
@@ -183,6 +187,8 @@ def c07(tier):
     c = new_check("C07", tier)
     for model, cfg in cfgs("mc/MC_Equiv", tier, [""]):
         mc_replay(c, model, cfg, "groups of colliding values per comparable type; all pairs compared with the class key")
+    for model, cfg in cfgs("mc/MC_Paths", tier, [""]):
+        mc_replay(c, model, cfg, "== / cmp between views of ONE buffer (a path against its parent, directory): the answers of freshly allocated copies")
     return c.finish(rule="all pairs of each group of values built to collide (percent-encoded vs literal, dot segments, "
                          "absent vs empty, ill-formed escapes); expected equality = same Canon computed by spec/Equiv.tla",
                     assumptions=TRUST)
@@ -194,6 +200,8 @@ def c08(tier):
         mc_replay(c, model, cfg, "cmp/partial_cmp/hash of all pairs, owned vs borrowed, Borrow views, rank certificate of the order")
     for model, cfg in cfgs("mc/MC_DataUrl", tier, [""]):
         mc_replay(c, model, cfg, "Borrow<DataUrl> for DataUrlBuf: hash, ==, cmp and set lookups of the owned value against its borrowed view")
+    for model, cfg in cfgs("mc/MC_Paths", tier, [""]):
+        mc_replay(c, model, cfg, "== / cmp between views of ONE buffer (a path against its parent, directory): the answers of freshly allocated copies")
     return c.finish(rule="same groups as C07; order laws decided on the full observed matrix through a rank certificate "
                          "(total preorder iff ord[i][j] = sign(rank i - rank j) for all pairs)",
                     assumptions=TRUST + ["std::collections::hash_map::DefaultHasher with fixed keys"])
